@@ -1,2 +1,10 @@
 import SpoxModel.Props.C01
 /-! `#print axioms` for every property theorem of C01; parsed by ./check. -/
+#print axioms C01.valid_sound
+#print axioms C01.valid_sound_checked
+#print axioms C01.valid_sound_nested
+#print axioms C01.emission_irrelevant
+#print axioms C01.outer_binding_irrelevant
+#print axioms C01.later_nodes_irrelevant
+#print axioms C01.creation_order_irrelevant
+#print axioms C01.written_differently_same_values
